@@ -4,13 +4,11 @@ go 1.21.0
 
 require (
 	github.com/beevik/etree v1.5.0
+	github.com/mattermost/xml-roundtrip-validator v0.1.0
 	github.com/russellhaering/gosaml2 v0.0.0
 	github.com/russellhaering/goxmldsig v1.5.0
 )
 
-require (
-	github.com/jonboulle/clockwork v0.5.0 // indirect
-	github.com/mattermost/xml-roundtrip-validator v0.1.0 // indirect
-)
+require github.com/jonboulle/clockwork v0.5.0 // indirect
 
 replace github.com/russellhaering/gosaml2 => /repo
